@@ -612,6 +612,11 @@ pub fn run(tier: Tier) -> RunOutcome {
         Tier::Thorough => GenOpts::thorough(),
     };
     opts.allow_infeasible = false;
+    if std::env::var("SIM_HOSTILE").is_ok() {
+        opts = GenOpts::thorough();
+        opts.allow_infeasible = false;
+        opts.max_scale_pow = 16;
+    }
     let mut base = with_sim(|s| gen_problem(&mut s.cs, &opts));
     let mut settings = with_sim(|s| gen_settings(&mut s.cs, false));
     // updates need presolve reductions to be absent; mostly switch presolve off,
